@@ -87,7 +87,9 @@ impl Check for C09 {
         let rep = run_history(tape, &hp, ctx.detail);
         let reads = rep.counters.get("op:get").copied().unwrap_or(0) + rep.counters.get("op:touch").copied().unwrap_or(0) + rep.counters.get("op:get_noread").copied().unwrap_or(0);
         let writes = rep.counters.get("op:set").copied().unwrap_or(0) + rep.counters.get("op:put").copied().unwrap_or(0);
-        let mut out = to_runout(rep, &["marks"], ctx.detail);
+        // (a second copy of a key that a put was issued onto means the lookup now
+        // returns other content from another queue position: C09's business too)
+        let mut out = to_runout(rep, &["marks", "map:duplicate"], ctx.detail);
         out.nontrivial = reads > 0 && writes > 0;
         out
     }
